@@ -40,6 +40,42 @@ def pmap(fn, items, jobs=None, chunksize=1, fresh=False):
     return results
 
 
+def run_fresh(fn, item):
+    """run fn(item) in one newly forked process (clean library state) and return its result"""
+    global _fn
+    _fn = fn
+    ctx = mp.get_context('fork')
+    with ctx.Pool(1, maxtasksperchild=1) as pool:
+        r = pool.map(_call, [item], 1)[0]
+    if isinstance(r, _Fatal):
+        raise SystemExit(f'INTERNAL: harness limit reached in a worker: {r.text}')
+    return r
+
+
+def replay_in_new_interpreter(pid, case):
+    """run `mc.run <pid> --replay <case>` in a brand-new interpreter (nothing inherited from this process: a forked child
+    would inherit whatever module-level state of the library this process has built up).  -> message | None"""
+    import json
+    import subprocess
+    import sys
+    import tempfile
+    here = os.path.dirname(os.path.dirname(os.path.abspath(__file__)))
+    with tempfile.NamedTemporaryFile('w', suffix='.json', dir=os.environ.get('TMPDIR') or '/var/tmp', delete=False) as f:
+        json.dump({'case': case}, f)
+        path = f.name
+    try:
+        r = subprocess.run([sys.executable, '-W', 'ignore', '-m', 'mc.run', pid, '--replay', path], cwd=here,
+                           capture_output=True, text=True, env=dict(os.environ, PYTHONHASHSEED='0'))
+    finally:
+        os.unlink(path)
+    for line in r.stdout.splitlines():
+        if line.startswith('REPLAY property=') and 'still fails: ' in line:
+            return line.split('still fails: ', 1)[1]
+        if line.startswith('REPLAY property=') and line.endswith('passes'):
+            return None
+    raise SystemExit(f'INTERNAL: replay subprocess for {pid} gave no verdict: {r.stdout[-300:]} {r.stderr[-600:]}')
+
+
 def shards(seq, n=None):
     """split a list into n interleaved shards (deterministic, balanced)."""
     seq = list(seq)
